@@ -270,7 +270,13 @@ def plan_for(ctx):
                 ("sync", "QUIT", ["idle"], "within", "tcp", (), 3, 60, ("--reload",)),
                 ("gthread", "TERM", ["app_running"], "within", "tcpunix"),
                 ("gevent", "TERM", ["second_partial", "app_running"], "within", "tcp"),
-                ("gthread", "TERM", ["app_running"], "within", "tcp", (), 3, 60, ("--reload",))]
+                ("gthread", "TERM", ["app_running"], "within", "tcp", (), 3, 60, ("--reload",)),
+                # started by something that left the master's signals set to "ignore" (nohup, cron): a stop request is obeyed all the same
+                ("sync", "TERM", ["app_running", "idle"], "within", "tcp", (), 3, 60, ("@ignsig",)),
+                # the stop request arrives while the worker serves the request that makes it reach max_requests (it has
+                # already decided to leave after this request; the master's TERM is then the second reason to)
+                ("sync", "TERM", ["app_running"], "within", "tcp", (), 3, 60, ("--max-requests", "1")),
+                ("gevent", "TERM", ["app_running", "resp_partial"], "within", "unix", (), 3, 60, ("--max-requests", "1"))]
     plan = []
     for wk in ("sync", "gthread", "gevent", "eventlet"):
         for bind in ("tcp", "unix"):
@@ -297,6 +303,10 @@ def plan_for(ctx):
         plan.append((wk, "TERM", ["app_running", "idle"], "within", "tcpunix"))
         plan.append((wk, "INT", ["idle"], "within", "tcpunix"))
         plan.append((wk, "TERM", ["app_running"], "within", "tcp", (), 3, 60, ("--reload",)))
+        plan.append((wk, "TERM", ["app_running", "idle"], "within", "tcp", (), 3, 60, ("@ignsig",)))
+        plan.append((wk, "QUIT", ["app_running"], "never", "unix", (), 3, 60, ("@ignsig",)))
+        plan.append((wk, "TERM", ["app_running", "resp_partial"], "within", "tcp", (), 3, 60, ("--max-requests", "1")))
+        plan.append((wk, "TERM", ["app_running"], "within", "unix", ("TTIN", "TTOU"), 3, 60, ("--max-requests", "2")))
     return plan
 
 
